@@ -395,6 +395,22 @@ func genDistr(g *Gen, n int, faults bool) {
 			g.count(fmt.Sprintf("sub/shares=%d", len(s.shares)))
 			g.count("primary/" + s.primary.typ)
 		}
+		// directed shape: a BASE_ACCOUNT source that is a vesting account with locked coins (the bank
+		// refuses to move its whole balance: the sweep fails, nothing may be booked)
+		if !dust && sc%3 == 1 {
+			for _, s := range subs {
+				for _, a := range s.sources {
+					if a.typ == distrtypes.BaseAccount {
+						if _, err := sdk.AccAddressFromBech32(a.id); err == nil && a.id != targets[0] {
+							lockAmt := 1 + g.intn(1000)
+							g.emit("d.credit %s [uc4e=%d]", a.id, lockAmt+g.intn(1000))
+							g.emit("d.lockacct %s [uc4e=%d]", a.id, lockAmt)
+							g.count("shape/vesting-account-source")
+						}
+					}
+				}
+			}
+		}
 		nb := 2 + g.intn(6)
 		for b := 0; b < nb; b++ {
 			for k := 0; k < g.intn(3); k++ {
